@@ -92,6 +92,27 @@ theorem readOne_is_first_form_gen (cfg : Cfg) (bs : List Byte) (o : Obj) (pos : 
     (hall : readAll genTables { cfg with one := false } bs = .ok code p) : code.head? = some o :=
   SlipVerif.Theorems.C02.readOne_is_first_form genTables cfg bs o pos code p hone hall
 
+/-- the table facts the continuation form of the one-form position rests on: `r.sharpNum` is read
+    only in `sharpNumMode`, `closeParen` sits only in `valueMode` on `)`, a token is never ended by a
+    `"` / `|` / `)` that valueMode would accept, strings and |symbols| end on `"` / `|` only -/
+theorem cont_ok : contOK genTables = true := by decide +kernel
+
+/-- reading on from the position `readOne` reports yields exactly the rest of the whole-text
+    reading, for the current tables -/
+theorem readOne_continuation_gen (cfg : Cfg) (bs : List Byte) (o : Obj) (pos : Nat)
+    (h : readOne genTables cfg bs = .ok (o, pos)) :
+    readAll genTables { cfg with one := false } bs =
+      (readAll genTables { cfg with one := false } (bs.drop pos)).shift [o] pos :=
+  SlipVerif.Theorems.C02.readOne_continuation genTables step_total cont_ok cfg bs o pos h
+
+/-- `n` consecutive `(read stream)` calls return the first `n` objects of the whole-text reading and
+    then the eof value, for the current tables -/
+theorem hist_reads_are_the_forms_gen (cfg : Cfg) (text : List Byte) (n c : Nat) (code : List Obj) (p lc : Nat)
+    (hc : c ≤ text.length) (hok : readAll genTables { cfg with one := false } (text.drop c) = .ok code p) :
+    (runHist genTables cfg text { cursor := c, lastChar := lc } (List.replicate n .read)).2 =
+      (code.take n).map HOut.form ++ List.replicate (n - code.length) HOut.eof :=
+  SlipVerif.Theorems.C02.hist_reads_are_the_forms genTables step_total cont_ok cfg text n c code p lc hc hok
+
 /-- in a stream history a `read` never moves the cursor beyond the text, for the current tables -/
 theorem hist_read_cursor_le_gen (cfg : Cfg) (text : List Byte) (s : HState) (hc : s.cursor ≤ text.length) :
     (hstep genTables cfg text s .read).1.cursor ≤ text.length :=
@@ -121,6 +142,8 @@ example : onePos [97, 98, 32, 99] = some 2 := by decide +kernel            -- ab
 example : onePos [40, 97, 41, 32, 98] = some 3 := by decide +kernel        -- (a) b
 example : onePos [34, 115, 34, 32, 120] = some 3 := by decide +kernel      -- "s" x
 example : onePos [40, 97] = none := by decide +kernel                      -- (a
+-- `ab(c)`: the `(` that ends the token is looked at again by the read that continues at position 2
+example : onePos [97, 98, 40, 99, 41] = some 2 ∧ onePos ([97, 98, 40, 99, 41].drop 2) = some 3 := by decide +kernel
 example : onePos [35, 92, 40, 32] = some 3 := by decide +kernel            -- #\( : any byte right after #\
 example : isErr (readAll genTables {} [35, 92]) = true := by decide +kernel -- #\ at the end of the text
 -- a history on "ab(c) d": peek, read ab, read-char '(' + unread, read (c), final cursor 6
